@@ -323,6 +323,37 @@ pub fn run(ctx: &Ctx) {
         &|b| Some(SigningKey::from_bytes(b)), &|v| v.to_bytes());
     drive::<VerifyingKey>(ctx, &Spec { name: "VerifyingKey", native_ok: &|b| ed::decompress(b).is_some(), length_prefixed: true, canon: &|b| *b, derived_newtype: false }, &ed_bytes[..ed_bytes.len().min(600)],
         &|b| VerifyingKey::from_bytes(b).ok(), &|v| v.to_bytes());
+    // over-long inputs that are meaningful in *another* encoding of the same type: the 64 keypair bytes (seed || public
+    // key) offered where a 32-byte secret key is expected, in every container the formats can deliver
+    for (i, sd) in seeds(4).iter().enumerate() {
+        ctx.eval(4);
+        let kp = SigningKey::from_bytes(sd).to_keypair_bytes();
+        let case = json!({"kind": "serde_keypair_as_secret", "seed": hex(sd)});
+        let mut bin = (64u64).to_le_bytes().to_vec();
+        bin.extend_from_slice(&kp);
+        let json_seq = format!("[{}]", kp.iter().map(|x| x.to_string()).collect::<Vec<_>>().join(","));
+        let outcomes = [
+            ("bincode byte string of 64", guarded(|| bincode::deserialize::<SigningKey>(&bin).is_ok())),
+            ("JSON sequence of 64", guarded(|| serde_json::from_str::<SigningKey>(&json_seq).is_ok())),
+            ("bincode byte string of 64 as VerifyingKey", guarded(|| bincode::deserialize::<VerifyingKey>(&bin).is_ok())),
+            ("JSON sequence of 64 as VerifyingKey", guarded(|| serde_json::from_str::<VerifyingKey>(&json_seq).is_ok())),
+        ];
+        for (what, r) in outcomes {
+            match r {
+                Ok(false) => {}
+                Ok(true) => ctx.violation("serde.keypair_bytes_as_key", &format!("{}: the 64 keypair bytes were accepted where a 32-byte key is expected", what), case.clone()),
+                Err(e) => ctx.violation("serde.keypair_bytes_as_key", &format!("{}: panic: {}", what, e), case.clone()),
+            }
+        }
+        // and the native slice constructors: exactly 32 bytes
+        for n in [0usize, 31, 33, 63, 64, 65] {
+            let slice = &[&kp[..], &kp[..]].concat()[..n];
+            if SigningKey::try_from(slice).is_ok() || VerifyingKey::try_from(slice).is_ok() {
+                ctx.violation("serde.keypair_bytes_as_key", &format!("try_from(&[u8]) accepts {} bytes", n), case.clone());
+            }
+        }
+        let _ = i;
+    }
     // Signature: external crate; round trip and length validation only
     {
         use ed25519_dalek::Signature;
